@@ -30,6 +30,43 @@ struct Jobs {
     }
 };
 
+// ---- explicit-state mode: abstract shared state = the pool's fields and the job ledger; thread-local state =
+// call-site chain + pending operation (scheduler) + the loop-counter tags set below.  Everything else a thread
+// holds is either constant (worker index) or determined by its location (lock ownership).
+static tlx::ThreadPool* g_pool;
+static Jobs* g_J;
+static long g_aux[2];  // harness data that later checks read (must be part of the abstract state)
+__attribute__((no_sanitize("thread"))) static uint64_t pool_state() {
+    uint64_t h = 99;
+    auto mix = [&h](uint64_t v) { h = (h ^ (v + 0x9E3779B97F4A7C15ull + (h << 6) + (h >> 2))) * 0xff51afd7ed558ccdull; };
+    if (g_J)
+        for (int i = 0; i < 8; ++i) mix((uint64_t)g_J->ran[i] * 16 + (uint64_t)(g_J->result[i] != 0));
+    if (g_pool) {
+        mix(g_pool->jobs_.size());
+        mix(g_pool->busy_.vs_peek());
+        mix(g_pool->idle_.vs_peek());
+        mix(g_pool->done_.vs_peek());
+        mix(g_pool->terminate_.vs_peek());
+    } else {
+        mix(0xdead);
+    }
+    mix((uint64_t)g_aux[0] + 7);
+    mix((uint64_t)g_aux[1] + 7);
+    return h;
+}
+struct Track {
+    Track(tlx::ThreadPool* p, Jobs* j) {
+        g_pool = p;
+        g_J = j;
+    }
+};
+// declared first in every scenario body, hence destroyed last: the pointers stay valid while the pool's destructor
+// runs (its scheduling points must still see terminate_ etc.) and never dangle into the next execution
+struct Reset {
+    Reset() { g_pool = nullptr, g_J = nullptr, g_aux[0] = g_aux[1] = 0; }
+    ~Reset() { g_pool = nullptr, g_J = nullptr; }
+};
+
 static void check_quiescent(tlx::ThreadPool& pool, const char* where) {
     REQUIRE(pool.jobs_.empty(), "loop_until_empty-returned-with-queued-job", "%s: %zu job(s) still queued", where, pool.jobs_.size());
     REQUIRE(pool.busy_.vs_peek() == 0, "loop_until_empty-returned-with-running-job", "%s: busy=%zu", where, pool.busy_.vs_peek());
@@ -48,24 +85,33 @@ static void check_at_most_once(const Jobs& J, const char* where) {
 
 // a) independent jobs from main
 static void sc_a(int W, int NJ) {
+    Reset rst;
     Jobs J;
     {
         tlx::ThreadPool pool(W);
-        for (int i = 0; i < NJ; ++i) pool.enqueue([&J, i]() { J.run(i); });
+        Track trk(&pool, &J);
+        for (int i = 0; i < NJ; ++i) {
+            vs_set_tag(1 + i);
+            pool.enqueue([&J, i]() { J.run(i); });
+        }
+        vs_set_tag(50);
         pool.loop_until_empty();
         check_quiescent(pool, "a");
         check_all_once(J, NJ, "a");
         REQUIRE(pool.done_.vs_peek() == (size_t)NJ, "done-count", "done()=%zu after %d jobs", pool.done_.vs_peek(), NJ);
     }
+    g_pool = nullptr;
     check_all_once(J, NJ, "a/after-destruction");
     vs_observe(vh::fmt("a ran=%d", J.total()).c_str());
 }
 
 // b) job -> child -> grandchild
 static void sc_b(int W, int extra) {
+    Reset rst;
     Jobs J;
     {
         tlx::ThreadPool pool(W);
+        Track trk(&pool, &J);
         tlx::ThreadPool* p = &pool;
         pool.enqueue([&J, p]() {
             J.run(0);
@@ -74,17 +120,23 @@ static void sc_b(int W, int extra) {
                 p->enqueue([&J]() { J.run(2); });
             });
         });
-        for (int i = 0; i < extra; ++i) pool.enqueue([&J, i]() { J.run(3 + i); });
+        for (int i = 0; i < extra; ++i) {
+            vs_set_tag(1 + i);
+            pool.enqueue([&J, i]() { J.run(3 + i); });
+        }
+        vs_set_tag(50);
         pool.loop_until_empty();
         check_quiescent(pool, "b");
         check_all_once(J, 3 + extra, "b");
         REQUIRE(pool.done_.vs_peek() == (size_t)(3 + extra), "done-count", "done()=%zu", pool.done_.vs_peek());
     }
+    g_pool = nullptr;
     vs_observe(vh::fmt("b ran=%d", J.total()).c_str());
 }
 
 // c) a second external thread enqueues while main waits
 static void sc_c(int W, int NJ2) {
+    Reset rst;
     Jobs J;
     {
         tlx::ThreadPool pool(W);
@@ -107,11 +159,14 @@ static void sc_c(int W, int NJ2) {
 
 // d) a job terminates the pool while main is in loop_until_terminate
 static void sc_d(int W, int NJ) {
+    Reset rst;
     Jobs J;
     {
         tlx::ThreadPool pool(W);
+        Track trk(&pool, &J);
         tlx::ThreadPool* p = &pool;
         for (int i = 0; i < NJ; ++i) {
+            vs_set_tag(1 + i);
             if (i == NJ / 2)
                 pool.enqueue([&J, p, i]() {
                     J.run(i);
@@ -120,22 +175,30 @@ static void sc_d(int W, int NJ) {
             else
                 pool.enqueue([&J, i]() { J.run(i); });
         }
+        vs_set_tag(50);
         pool.loop_until_terminate();
         REQUIRE(pool.busy_.vs_peek() == 0, "loop_until_terminate-returned-with-running-job", "busy=%zu", pool.busy_.vs_peek());
         REQUIRE(J.ran[NJ / 2] == 1, "job-not-run", "terminating job ran %d times", J.ran[NJ / 2]);
         check_at_most_once(J, "d");
         REQUIRE(pool.done_.vs_peek() == (size_t)J.total(), "done-count", "done()=%zu but %d jobs ran", pool.done_.vs_peek(), J.total());
     }
+    g_pool = nullptr;
     check_at_most_once(J, "d/after-destruction");
     vs_observe(vh::fmt("d ran=%d", J.total()).c_str());
 }
 
 // e) destruction / terminate() from main with jobs still queued
 static void sc_e(int W, int NJ, bool call_terminate) {
+    Reset rst;
     Jobs J;
     {
         tlx::ThreadPool pool(W);
-        for (int i = 0; i < NJ; ++i) pool.enqueue([&J, i]() { J.run(i); });
+        Track trk(&pool, &J);
+        for (int i = 0; i < NJ; ++i) {
+            vs_set_tag(1 + i);
+            pool.enqueue([&J, i]() { J.run(i); });
+        }
+        vs_set_tag(50);
         if (call_terminate) {
             pool.terminate();
             pool.loop_until_terminate();
@@ -143,37 +206,47 @@ static void sc_e(int W, int NJ, bool call_terminate) {
             REQUIRE(pool.done_.vs_peek() == (size_t)J.total(), "done-count", "done()=%zu but %d jobs ran", pool.done_.vs_peek(), J.total());
         }
     }
+    g_pool = nullptr;
     check_at_most_once(J, "e");
     vs_observe(vh::fmt("e ran=%d", J.total()).c_str());
 }
 
 // f) two external waiters
 static void sc_f(int W, int NJ, bool second_is_terminate_waiter) {
+    Reset rst;
     Jobs J;
     {
         tlx::ThreadPool pool(W);
+        Track trk(&pool, &J);
         tlx::ThreadPool* p = &pool;
-        for (int i = 0; i < NJ; ++i) pool.enqueue([&J, i]() { J.run(i); });
-        int seen_other = -1;
-        thread other([&J, p, NJ, &seen_other]() {
+        for (int i = 0; i < NJ; ++i) {
+            vs_set_tag(1 + i);
+            pool.enqueue([&J, i]() { J.run(i); });
+        }
+        vs_set_tag(50);
+        g_aux[0] = -1;
+        thread other([&J, p, NJ]() {
             p->loop_until_empty();
-            seen_other = J.total();
+            g_aux[0] = J.total();
         });
         pool.loop_until_empty();
         check_quiescent(pool, "f/main");
         check_all_once(J, NJ, "f/main");
         other.join();
-        REQUIRE(seen_other == NJ, "job-not-run", "second waiter returned after %d of %d jobs", seen_other, NJ);
+        REQUIRE(g_aux[0] == NJ, "job-not-run", "second waiter returned after %ld of %d jobs", g_aux[0], NJ);
         (void)second_is_terminate_waiter;
     }
+    g_pool = nullptr;
     vs_observe(vh::fmt("f ran=%d", J.total()).c_str());
 }
 
 // f2) one waiter for emptiness, one for termination; a job terminates the pool
 static void sc_f2(int W) {
+    Reset rst;
     Jobs J;
     {
         tlx::ThreadPool pool(W);
+        Track trk(&pool, &J);
         tlx::ThreadPool* p = &pool;
         pool.enqueue([&J, p]() {
             J.run(0);
@@ -190,20 +263,31 @@ static void sc_f2(int W) {
 
 // g) reuse: two rounds
 static void sc_g(int W, int NJ) {
+    Reset rst;
     Jobs J;
     {
         tlx::ThreadPool pool(W);
-        for (int i = 0; i < NJ; ++i) pool.enqueue([&J, i]() { J.run(i); });
+        Track trk(&pool, &J);
+        for (int i = 0; i < NJ; ++i) {
+            vs_set_tag(1 + i);
+            pool.enqueue([&J, i]() { J.run(i); });
+        }
+        vs_set_tag(50);
         pool.loop_until_empty();
         check_quiescent(pool, "g/1");
         check_all_once(J, NJ, "g/1");
-        for (int i = 0; i < NJ; ++i) pool.enqueue([&J, i, NJ]() { J.run(NJ + i); });
+        for (int i = 0; i < NJ; ++i) {
+            vs_set_tag(60 + i);
+            pool.enqueue([&J, i, NJ]() { J.run(NJ + i); });
+        }
+        vs_set_tag(90);
         pool.loop_until_empty();
         check_quiescent(pool, "g/2");
         check_all_once(J, 2 * NJ, "g/2");
         REQUIRE(pool.done_.vs_peek() == (size_t)(2 * NJ), "done-count", "done()=%zu", pool.done_.vs_peek());
         REQUIRE(pool.idle_.vs_peek() <= (size_t)W, "idle-count", "idle()=%zu > %d", pool.idle_.vs_peek(), W);
     }
+    g_pool = nullptr;
     vs_observe(vh::fmt("g ran=%d", J.total()).c_str());
 }
 
@@ -244,6 +328,34 @@ int main(int argc, char** argv) {
         }
         if (W <= 2) add(vh::fmt("g:w%d:j1", W), "reuse", [W] { sc_g(W, 1); }, 'P', W == 1 ? 3 : 1, W == 1 ? 4 : 2);
         if (W == 1) add(vh::fmt("g:w%d:j2", W), "reuse", [W] { sc_g(W, 2); }, 'P', 2, 3);
+    }
+    // explicit-state (unbounded) exploration of the smaller scenarios: every interleaving at the granularity of
+    // the scheduling points, pruned at abstract states seen before
+    {
+        auto adds = [&](const std::string& name, const std::string& fam, std::function<void()> body, bool quick_too = false) {
+            vx::Scenario s;
+            s.thorough_only = !quick_too;
+            s.name = "X:" + name;
+            s.family = "pool." + fam;
+            s.body = body;
+            s.stateful = true;
+            s.state_cb = &pool_state;
+            s.whole = true;
+            s.horizon = 20000;
+            scs.push_back(s);
+        };
+        for (int W = 1; W <= 2; ++W) {
+            bool q = W == 1;
+            for (int NJ = 1; NJ <= 3; ++NJ) adds(vh::fmt("a:w%d:j%d", W, NJ), "independent", [W, NJ] { sc_a(W, NJ); }, q || NJ == 1);
+            adds(vh::fmt("b:w%d:x0", W), "nested", [W] { sc_b(W, 0); }, q);
+            adds(vh::fmt("d:w%d:j1", W), "terminate-from-job", [W] { sc_d(W, 1); }, q);
+            adds(vh::fmt("d:w%d:j3", W), "terminate-from-job", [W] { sc_d(W, 3); }, q);
+            adds(vh::fmt("e:w%d:j2:destroy", W), "destroy-with-queued", [W] { sc_e(W, 2, false); }, q);
+            adds(vh::fmt("e:w%d:j2:terminate", W), "terminate-with-queued", [W] { sc_e(W, 2, true); }, q);
+            adds(vh::fmt("g:w%d:j1", W), "reuse", [W] { sc_g(W, 1); }, q);
+            adds(vh::fmt("f:w%d:j1", W), "two-waiters", [W] { sc_f(W, 1, false); }, q);
+        }
+        adds("a:w3:j1", "independent", [] { sc_a(3, 1); });
     }
     return vx::run(argc, argv, scs);
 }
